@@ -31,6 +31,15 @@ pub struct GenCfg {
     /// nested values are sequences only (text, array, xml): no map-held containers
     #[serde(default)]
     pub seq_only: bool,
+    /// bias towards appending at the end (same-client blocks squash across transactions)
+    #[serde(default)]
+    pub append_pct: u32,
+    /// deletions may span the whole collection
+    #[serde(default)]
+    pub wide_del: bool,
+    /// bias towards the most recently created nested types
+    #[serde(default)]
+    pub recent_pct: u32,
 }
 
 impl GenCfg {
@@ -62,6 +71,9 @@ impl GenCfg {
             clear_pct: *rng.pick(&[0, 5, 10]),
             rich_any: rng.chance(50),
             seq_only: false,
+            append_pct: 0,
+            wide_del: false,
+            recent_pct: 0,
         }
     }
 }
@@ -210,7 +222,22 @@ pub fn gen_op(rng: &mut Rng, view: &[TypeInfo], cfg: &GenCfg, tags: &mut Tags) -
     if weights.iter().all(|w| *w == 0) {
         return None;
     }
-    let ti = &view[rng.weighted(&weights)];
+    let mut pick = rng.weighted(&weights);
+    if cfg.recent_pct > 0 && rng.chance(cfg.recent_pct) {
+        // the nested types with the highest clocks are the most recently created ones
+        let mut nested: Vec<(u32, usize)> = view
+            .iter()
+            .enumerate()
+            .filter(|(i, _)| weights[*i] > 0)
+            .filter_map(|(i, t)| if let crate::ops::Tgt::N(_, c) = &t.tgt { Some((*c, i)) } else { None })
+            .collect();
+        nested.sort();
+        nested.reverse();
+        if !nested.is_empty() {
+            pick = nested[rng.idx(nested.len().min(2))].1;
+        }
+    }
+    let ti = &view[pick];
     let t = ti.tgt.clone();
     let k = ti.kind;
     let del = ti.len > 0 && rng.chance(cfg.del_pct);
@@ -220,8 +247,8 @@ pub fn gen_op(rng: &mut Rng, view: &[TypeInfo], cfg: &GenCfg, tags: &mut Tags) -
                 Op::TRemove {
                     t,
                     k,
-                    pos: rng.below(ti.len as u64) as u32,
-                    len: rng.range(1, cfg.max_del as u64) as u32,
+                    pos: if cfg.wide_del && rng.chance(40) { 0 } else { rng.below(ti.len as u64) as u32 },
+                    len: if cfg.wide_del { rng.range(1, ti.len as u64) as u32 } else { rng.range(1, cfg.max_del as u64) as u32 },
                 }
             } else if ti.len > 0 && rng.chance(cfg.fmt_pct) {
                 Op::TFormat {
@@ -268,7 +295,7 @@ pub fn gen_op(rng: &mut Rng, view: &[TypeInfo], cfg: &GenCfg, tags: &mut Tags) -
                 }
             } else {
                 let s = tags.chars(rng.range(1, cfg.max_ins as u64) as u32);
-                if rng.chance(15) {
+                if rng.chance(15.max(cfg.append_pct)) {
                     Op::TPush { t, k, s }
                 } else {
                     // bias towards the ends and towards the same spot (conflict-prone)
@@ -291,8 +318,8 @@ pub fn gen_op(rng: &mut Rng, view: &[TypeInfo], cfg: &GenCfg, tags: &mut Tags) -
             if del {
                 Op::ARemove {
                     t,
-                    pos: rng.below(ti.len as u64) as u32,
-                    len: rng.range(1, cfg.max_del as u64) as u32,
+                    pos: if cfg.wide_del && rng.chance(40) { 0 } else { rng.below(ti.len as u64) as u32 },
+                    len: if cfg.wide_del { rng.range(1, ti.len as u64) as u32 } else { rng.range(1, cfg.max_del as u64) as u32 },
                 }
             } else {
                 let n = rng.range(1, cfg.max_ins as u64);
